@@ -35,9 +35,13 @@ func (row *Row) invokeRenderCallbacks(t *ATable, ec ErrorReceiver) {
 	for i := range row.cells {
 		ptr := &row.cells[i]
 		col := ptr.columnOfTable()
+		if col != nil && row.inTable != t {
+			// the row is in several tables: the column is that of the table being rendered
+			col = t.Column(ptr.columnNum)
+		}
 		invokePropertyCallbacks(t.tableCellCallbacks, CB_AT_RENDER_PRECELL, ptr, ec)
 		if col != nil {
-			invokePropertyCallbacks(col.cellCallbacks, CB_AT_RENDER_PRECELL, ptr, row.ErrorContainer)
+			invokePropertyCallbacks(col.cellCallbacks, CB_AT_RENDER_PRECELL, ptr, ec)
 		}
 		invokePropertyCallbacks(row.rowCellCallbacks, CB_AT_RENDER_PRECELL, ptr, ec)
 
@@ -46,7 +50,7 @@ func (row *Row) invokeRenderCallbacks(t *ATable, ec ErrorReceiver) {
 
 		invokePropertyCallbacks(row.rowCellCallbacks, CB_AT_RENDER_POSTCELL, ptr, ec)
 		if col != nil {
-			invokePropertyCallbacks(col.cellCallbacks, CB_AT_RENDER_POSTCELL, ptr, row.ErrorContainer)
+			invokePropertyCallbacks(col.cellCallbacks, CB_AT_RENDER_POSTCELL, ptr, ec)
 		}
 		invokePropertyCallbacks(t.tableCellCallbacks, CB_AT_RENDER_POSTCELL, ptr, ec)
 	}
